@@ -136,9 +136,13 @@ func Verif_C08_Q3_InFlightWrite() {
 		vnd.Cover("write-into-quarantined-block")
 		vnd.Assert(ferr != nil, "an upload in flight into a quarantined block was acknowledged")
 		vnd.Assert(status.Code(ferr) == codes.Internal, "in-flight upload into a quarantined block failed with an unexpected code")
+	} else if absWritten < x.bl.released {
+		// ordinary rotation released the target block in the meantime: failing is the specified outcome
+		vnd.Cover("write-target-rotated-away")
+		vnd.Assert(ferr != nil, "an upload whose target block was rotated away was acknowledged")
 	} else {
 		vnd.Cover("write-into-newer-block")
-		vnd.Assert(ferr == nil, "an upload into a block newer than the corrupted one failed")
+		vnd.Assert(ferr == nil, "an upload into a live block newer than the corrupted one failed")
 		vnd.Assert(x.bl.released+loc.BlockIndex == absWritten, "finalizer reports a block other than the one the data went to")
 		vnd.Assert(loc.SizeBytes == size, "finalizer reports a wrong size")
 	}
